@@ -220,7 +220,7 @@ def _worker(cfg, inp, out, wd):
         concrete = []
         for ap in sample:
             stem = "" if ap["hidden"] else rng.choice(STEMS)
-            conc_tail = {"": "", ".": ".", " ": " ", "?q": "?x=1", "/b": "/b"}[ap["tail"]]
+            conc_tail = {"": "", ".": ".", " ": " ", "?q": "?x=1", "/b": "/b", "/": "/", "/.": "/.", "//": "//"}[ap["tail"]]
             d = rng.choice(["", "dir/", "/abs/path/"])
             concrete.append((ap, _case(d + stem + "".join("." + t for t in ap["exts"]), rng.choice((0, 1)), rng) + conc_tail))
         # small blocks (single paths first, then 40 at a time): a memo of any size sees the same path again soon
@@ -241,9 +241,26 @@ def _worker(cfg, inp, out, wd):
         return
     for ap in job["paths"]:
         for _ in range(job["nvar"]):
-            for mode in (0, 1, 2):
-                stem = "" if ap["hidden"] else rng.choice(STEMS)
+            for mode in (0, 1, 2, 3):
+                # a hidden name has nothing but dots in front of its extension (".docx", "..docx", "...docx")
+                stem = rng.choice(["", "", ".", ".."]) if ap["hidden"] else rng.choice(STEMS)
                 tail = ap["tail"]
+                exts = list(ap["exts"])
+                if mode == 3:
+                    # letters with special case mappings in the last extension: LONG S (lower() keeps it, casefold() / upper()
+                    # make it an s: the token is in no table), KELVIN SIGN (lower() gives k: the token is unchanged),
+                    # I WITH DOT ABOVE (lower() gives two characters: in no table)
+                    if not exts:
+                        continue
+                    t = exts[-1]
+                    if "s" in t:
+                        spelt, exts[-1] = t.replace("s", "\u017f", 1), t + "~"
+                    elif "k" in t:
+                        spelt = t.replace("k", "\u212a", 1)
+                    elif "i" in t:
+                        spelt, exts[-1] = t.replace("i", "\u0130", 1), t + "~"
+                    else:
+                        continue
                 d = rng.choice(DIRS)
                 if ap["hidden"] and not d.endswith("/"):
                     d = ""        # a backslash is not a separator here: the stem would not be empty
@@ -251,8 +268,12 @@ def _worker(cfg, inp, out, wd):
                 if url:
                     d = "https://host.example/" + rng.choice(["", "sites/a.b/"])
                 name = stem + "".join("." + t for t in ap["exts"])
-                conc_tail = {"": "", ".": ".", " ": " ", "?q": "?x=1", "/b": "/" + rng.choice(["b", "README", "файл"])}[tail]
-                path = _case(d + name, mode, rng) + conc_tail
+                conc_tail = {"": "", ".": ".", " ": " ", "?q": "?x=1", "/b": "/" + rng.choice(["b", "README", "файл"]),
+                             "/": "/", "/.": "/.", "//": "//"}[tail]
+                if mode == 3:
+                    path = d + stem + "".join("." + t for t in ap["exts"][:-1]) + "." + spelt + conc_tail
+                else:
+                    path = _case(d + name, mode, rng) + conc_tail
                 lower = path.lower()
                 guess = mimetypes.guess_type(lower)[0] or ""
                 try:
@@ -260,7 +281,7 @@ def _worker(cfg, inp, out, wd):
                 except Exception as e:
                     sup = "Other:" + type(e).__name__
                 route = route_of(path)
-                events.append({"a": "Query", "path": path, "exts": ap["exts"], "hidden": ap["hidden"],
+                events.append({"a": "Query", "path": path, "exts": exts, "hidden": ap["hidden"],
                                "tail": ap["tail"], "case": mode, "guess": guess, "sup": sup, "route": route,
                                "rf": None})
     # phase 2: read_file dispatch, with every registered extractor replaced by a recording stub
